@@ -3,7 +3,9 @@
 package errors
 
 import (
+	"encoding/json"
 	"fmt"
+	"io"
 
 	"google.golang.org/grpc/codes"
 	"google.golang.org/grpc/status"
@@ -92,7 +94,33 @@ type zzObj struct {
 
 const zzObjJSON = `{"a":7,"p":"100%"}`
 
-func zzJSONMarshal(v any) ([]byte, error) { return []byte(zzObjJSON), nil }
+// zzBad stands for a value encoding/json cannot marshal (NaN, chan, func)
+type zzBad chan int
+
+func zzJSONMarshal(v any) ([]byte, error) {
+	if _, bad := v.(zzBad); bad {
+		return nil, fmt.Errorf("json: unsupported value")
+	}
+	return []byte(zzObjJSON), nil
+}
+
+// the streaming API of encoding/json, should EmbedObject be written with it: same fixed-object model
+var zzEncW = map[*json.Encoder]io.Writer{}
+
+func zzJSONNewEncoder(w io.Writer) *json.Encoder {
+	enc := new(json.Encoder)
+	zzEncW[enc] = w
+	return enc
+}
+
+func zzJSONEncode(enc *json.Encoder, v any) error {
+	b, err := zzJSONMarshal(v)
+	if err != nil {
+		return err
+	}
+	_, err = zzEncW[enc].Write(append(b, '\n'))
+	return err
+}
 func zzJSONUnmarshal(data []byte, v any) error {
 	if string(data) != zzObjJSON {
 		return fmt.Errorf("bad json")
@@ -125,6 +153,10 @@ func zzC19Wrap() {
 	vAssume(hasCode)
 	depth := vChoose("depth", 5)
 	embed := vBool("embed")
+	if vBool("failedEmbedBefore") {
+		// an earlier embedding of an unmarshalable value returns the error as is and leaves nothing behind
+		vAssert(EmbedObject(zzBad(nil), zzUnrelated) == zzUnrelated, "EmbedObject of an unmarshalable value did not return the error as is")
+	}
 	e := class
 	for i := 0; i < depth; i++ {
 		if embed && i == depth/2 {
